@@ -8,7 +8,7 @@ EXTENDS SdkModels, Json, IOUtils
 Obs == JsonDeserialize(IOEnv.VERIF_OBS)
 \* (the record itself is the state, see SdkTrace)
 VARIABLES Rec, paths
-ModelOf(o) == IF o.pa = 0 THEN FixedModels[o.mi] ELSE ParamModel(o.pa, o.pb)
+ModelOf(o) == IF o.pa = 0 THEN WalkModels[o.mi] ELSE ParamModel(o.pa, o.pb)
 Init == Rec \in ToSet(Obs) /\ paths = AllNodePaths(Rec.x)
 Next == UNCHANGED <<Rec, paths>>
 Nodes == Rec.nodes
